@@ -127,6 +127,11 @@ pub struct PanicRec {
 
 /// Advances with every scheduler step of whatever run is executing in this process: a watchdog on
 /// another thread tells "stopped returning to the scheduler" from "slow" with it.
+thread_local! {
+    /// bytes moved over simulated connections by this run's thread (reads and writes that
+    /// transferred something): what tells a slow run from a spinning one
+    pub static IO_PROGRESS: Cell<u64> = const { Cell::new(0) };
+}
 pub static PROGRESS: std::sync::atomic::AtomicU64 = std::sync::atomic::AtomicU64::new(0);
 
 #[derive(Clone, Copy, Debug)]
@@ -319,11 +324,27 @@ impl Sim {
 
     /// Run until quiescent (nothing runnable, nobody on the idle barrier, no timer) or until the
     /// step budget is exhausted.
+    /// Runs until nothing can happen any more (`Quiescent`) or the step budget is used up
+    /// (`Budget`: the scenarios report that as "no quiescence", i.e. something spins). A run that is
+    /// still moving bytes over its connections when the budget ends is slow, not spinning (a large
+    /// message under one-byte chunks and a cooperative budget of two takes millions of steps): it
+    /// is given the budget again, up to 32 times in all, as long as bytes moved since the last
+    /// time it asked.
     pub fn run(&self, max_steps: u64) -> RunEnd {
         let rt = &self.rt;
+        let mut limit = rt.steps.get().max(0) + max_steps;
+        let mut extensions = 0u32;
+        let mut seen_progress = IO_PROGRESS.with(|p| p.get());
         loop {
             self.admit();
-            if rt.steps.get() >= max_steps {
+            if rt.steps.get() >= limit {
+                let p = IO_PROGRESS.with(|p| p.get());
+                if p != seen_progress && extensions < 31 {
+                    seen_progress = p;
+                    extensions += 1;
+                    limit += max_steps;
+                    continue;
+                }
                 return RunEnd::Budget;
             }
             let n = rt.runq.lock().unwrap().len();
